@@ -62,6 +62,7 @@ class Sim:
         self.gates: list[asyncio.Event] = []
         self.waiting: list[asyncio.Event] = []
         self.open_all = False
+        self.counters: dict = {}
 
     def gate(self):
         ev = asyncio.Event()
@@ -193,6 +194,9 @@ def _mk_component(sim, i, sp, real_components):
                 k = sp["kind"]
                 if k == "allow":
                     return True, None
+                if k == "allow-once":  # e.g. a rate limiter whose verdict flips on a second consultation
+                    n = sim.counters[i] = sim.counters.get(i, 0) + 1
+                    return (True, None) if n == 1 else (False, sp["response"])
                 if k == "deny":
                     return False, sp["response"]
                 if k == "deny-none":
